@@ -342,6 +342,13 @@ class ContDomain(Domain):
             return None
         if k == 'delete':
             return Unknown('delete')
+        if k == 'construct' and self.opaque(n):
+            a0, a1 = n.ns('args')
+            c = ex._value(a0, st, fr)
+            if not isinstance(c, Ref):
+                loc = ex.loc_of(a0, st, fr)
+                c = Ref(loc) if loc is not None else c
+            return Record({'m_container': c, 'm_index': ex._rvalue(a1, st, fr)}, 'iterator')
         if k == 'construct':
             args = [ex._value(a, st, fr) for a in n.ns('args') if a is not None]
             cls = n.d.get('class') or ''
@@ -455,12 +462,15 @@ class ContDomain(Domain):
     # assignment to an element lvalue of trivially-copyable / class type: symex turns `m_data[i] = v` into a write to a
     # location only if loc_of succeeds; element slots are not store locations, so intercept through ext hooks
     def opaque(self, n):
-        return False
+        # iterator objects are values (container reference + index): built directly instead of running the constructor
+        return n.k == 'construct' and strip_targs(n.d.get('class') or '') == 'tulz::RandomAccessIndexIterator' and len(n.ns('args')) == 2
 
     # ---- loops ------------------------------------------------------------------------------------------------------------------------
     def summarise_loop(self, ex, loop, st, fr):
         r = None
-        if loop.k == 'for': r = self._sum_for(ex, loop, st, fr)
+        if loop.k == 'for':
+            r = self._sum_for(ex, loop, st, fr)
+            if r is None: r = self._sum_iterfor(ex, loop, st, fr)
         elif loop.k == 'rangefor': r = self._sum_rangefor(ex, loop, st, fr)
         if r is None:
             # the loop is unrolled a bounded number of times: statements about *all* iterations are no longer exact
@@ -495,9 +505,15 @@ class ContDomain(Domain):
 
     def _sum_for(self, ex, loop, st, fr):
         init, cond, inc, body = loop.n('init'), loop.n('c'), loop.n('inc'), loop.n('body')
-        if init is None or cond is None or inc is None or body is None: return None
-        if init.k != 'decl' or len(init.vars) != 1: return None
-        iv = init.vars[0]['decl']
+        if cond is None or inc is None or body is None: return None
+        if init is not None:
+            if init.k != 'decl' or len(init.vars) != 1: return None
+            iv = init.vars[0]['decl']
+        else:
+            # for (; first != last; ++first): the counter is an existing local / by-value parameter
+            c0 = cond.n('lhs') if cond.k == 'binop' else None
+            if c0 is None or c0.k != 'ref' or c0.dk not in ('local', 'param') or c0.d.get('declref'): return None
+            iv = c0.decl
         is_iv = lambda x: x is not None and x.k == 'ref' and x.decl == iv
         # i < b, i != b, b > i, b != i   (for `!=` the start must not exceed the bound: checked below)
         if cond.k != 'binop': return None
@@ -593,6 +609,64 @@ class ContDomain(Domain):
                 rest = Lin({s: c for s, c in s0.ptr.off.t.items() if s != isym}, s0.ptr.off.c)
                 return ('raw', s0.ptr.base, rest + a, rest + b)
         return ('value', repr(s0))
+
+    def _sum_iterfor(self, ex, loop, st, fr):
+        """for (auto it = X.begin()[, last = X.end()]; it != X.end() | last; ++it[, ++p ...]) body   — X an initializer_list or a
+        container object: the body is evaluated once with `it` designating logical element k of X, every pointer / counter stepped
+        in the increment part standing at start + k"""
+        init, cond, inc, body = loop.n('init'), loop.n('c'), loop.n('inc'), loop.n('body')
+        if init is None or cond is None or inc is None or body is None or init.k != 'decl' or not (1 <= len(init.vars) <= 2): return None
+        itv = init.vars[0]; itd = itv['decl']
+        is_it = lambda x: x is not None and x.k == 'ref' and x.decl == itd
+        if not (cond.k in ('binop', 'call') ): return None
+        # condition: it != <end>
+        if cond.k == 'binop':
+            if cond.op not in ('!=', '<') or not is_it(cond.n('lhs')): return None
+            end_node = cond.n('rhs')
+        else:
+            a = [x for x in cond.ns('args') if x is not None]
+            if cond.ck != 'op' or cond.op not in ('!=', '<') or len(a) != 2 or not is_it(a[0]): return None
+            end_node = a[1]
+        # increment part: ++it plus any number of ++x / x++ on other locals
+        incs = []
+        def collect(n):
+            if n is None: return False
+            if n.k == 'binop' and n.op == ',': return collect(n.n('lhs')) and collect(n.n('rhs'))
+            if n.k == 'unop' and n.op == '++' and n.n('sub') is not None and n.n('sub').k == 'ref': incs.append(n.n('sub').decl); return True
+            if n.k == 'call' and n.ck == 'op' and n.op == '++' and n.ns('args') and n.ns('args')[0] is not None and n.ns('args')[0].k == 'ref': incs.append(n.ns('args')[0].decl); return True
+            return False
+        if not collect(inc) or incs.count(itd) != 1: return None
+        v0 = st.store.get(('l', fr.id, itd))
+        isym = f'k#{next(self.fresh)}'
+        count = None; bind = None
+        if isinstance(v0, Sym) and v0.name == 'il.begin':
+            count = Lin.sym('il.size'); bind = ElemRef(obj='il', k=Lin.sym(isym)); end_ok = lambda e: isinstance(e, Sym) and e.name == 'il.end'
+        elif isinstance(v0, Record) and isinstance(v0.f.get('m_container'), Ref) and as_lin(v0.f.get('m_index')) == Lin.const(0):
+            cref = v0.f['m_container']
+            if cref.loc[0] != 'f': return None
+            sz = as_lin(ex.read(('f', cref.loc[1] + ('m_size',)), st, loop))
+            if sz is None: return None
+            count = sz; bind = Record(dict(v0.f, m_index=Lin.sym(isym)), v0.tag)
+            end_ok = lambda e: isinstance(e, Record) and isinstance(e.f.get('m_container'), Ref) and e.f['m_container'].loc == cref.loc and as_lin(e.f.get('m_index')) == sz
+        else: return None
+        ev_ = ex._rvalue(end_node, st, fr)
+        if isinstance(ev_, Ref): ev_ = ex.read(ev_.loc, st)
+        if not end_ok(ev_): return None
+        st3 = st.clone(); starts = {}
+        for d_ in incs:
+            if d_ == itd: continue
+            loc = ('l', fr.id, d_); cur = st.store.get(loc)
+            if isinstance(cur, Ptr) and isinstance(cur.off, Lin): st3.store[loc] = Ptr(cur.base, cur.off + Lin.sym(isym)); starts[loc] = cur
+            elif as_lin(cur) is not None and isinstance(cur, (Lin, int)): st3.store[loc] = as_lin(cur) + Lin.sym(isym); starts[loc] = cur
+            else: return None
+        res = self._body_effects(ex, body, st3, fr, {itd: bind})
+        if res is None: return None
+        st2, evs = res
+        out = self._ranges_from(evs, isym, Lin.const(0), count, st, loop)
+        if out is None: return None
+        for loc, cur in starts.items():
+            st.store[loc] = Ptr(cur.base, cur.off + count) if isinstance(cur, Ptr) else as_lin(cur) + count
+        return ('iter-for', repr(count))
 
     def _sum_rangefor(self, ex, loop, st, fr):
         rng = loop.n('range'); body = loop.n('body')
